@@ -1,4 +1,5 @@
 import L21.Props.C16
+import L21.Props.LayersT
 import L21.Props.NumConsts
 #print axioms L21.LefRaw.c16_exact
 #print axioms L21.LefRaw.c16_not_rounded
@@ -9,3 +10,6 @@ import L21.Props.NumConsts
 #print axioms L21.LefRaw.c16_rect_coords
 #print axioms L21.LefRaw.c16_layer_blocks
 #print axioms L21.c16_dist_scale_is_source
+#print axioms L21.Layers.import_by_name_fidelity
+#print axioms L21.Layers.import_names_history
+#print axioms L21.c16_import_layer_calls
